@@ -24,27 +24,34 @@ EXTENDS Lexer, Json
 
 NT == INSTANCE NumTower      \* only for the cross-check FloatsRounded
 
-CONSTANTS Which,        \* "full" | "num" | "num2" | "str"
+CONSTANTS Which,        \* "full" | "fullx" | "core" | "num" | "num2" | "str"
           MaxLen        \* characters added after the prefix
 
-FullAlpha == {48, 49, 55, 57,
-              97, 98, 101, 102, 105, 111, 113, 114, 120, 110, 117, 122,
-              66, 70, 82, 69, 88, 90,
-              95, 39, 34, 92, 35, 40, 41, 91, 93, 123, 125, 96, 44, 59, 58, 32, 10,
+\* one representative per class (quick); the wider alphabet adds second members and the classes
+\* whose lexical behaviour coincides with a kept one (thorough, same bound); Core is the subset
+\* with a distinct role in some mode (thorough, one character more)
+FullAlpha == {48, 49, 57,
+              97, 98, 101, 102, 105, 111, 113, 114, 120, 122,
+              66, 70, 82, 69, 90,
+              95, 39, 34, 92, 35, 40, 41, 91, 123, 96, 44, 58, 32, 10,
               46, 45, 61, 33, 63, 60, 62, 43,
               128009, 233, 8364}
-NumAlpha == {48, 49, 55, 57, 97, 98, 101, 102, 105, 113, 114, 120, 122, 90, 46, 45, 43, 95}
+FullXAlpha == FullAlpha \cup {55, 110, 117, 88, 59, 93, 125, 47, 8743, 9, 1635}
+CoreAlpha == {48, 49, 57, 97, 101, 102, 114, 120, 122, 66, 70, 82, 95, 39, 34, 92, 35, 40, 41, 91, 123, 58, 32, 10,
+              46, 45, 61, 33, 63, 60, 62}
+NumAlpha == {48, 49, 55, 57, 97, 98, 101, 102, 105, 113, 114, 120, 122, 111, 46, 45, 43, 95}
 Num2Alpha == {48, 49, 57, 46, 101, 45, 114, 120, 102, 122}
-NumPrefixes == {<<48>>, <<49>>, <<55>>, <<57>>, <<54, 52>>, <<51, 54>>, <<49, 54>>}
-StrAlpha == {34, 39, 92, 110, 120, 117, 123, 125, 40, 41, 91, 93, 60, 62, 48, 70, 103, 233}
+NumPrefixes == {<<48>>, <<49>>, <<57>>, <<54, 52>>, <<51, 54>>}
+Num2Prefixes == {<<48>>, <<49>>, <<57>>, <<51, 54>>}
+StrAlpha == {34, 39, 92, 110, 120, 117, 123, 125, 40, 41, 93, 62, 48, 70, 103}
 StrPrefixes == {<<34>>, <<39>>, <<66, 34>>, <<70, 34>>, <<82, 34>>, <<34, 92>>, <<34, 92, 117>>,
                 <<34, 92, 120>>, <<34, 92, 117, 123>>, <<34, 92, 117, 40>>, <<66, 39, 92, 117, 60>>,
                 <<70, 34, 92, 117, 91>>, <<34, 92, 117, 123, 70, 70, 70, 70, 70, 70, 70>>}
 
-Alphabet == CASE Which = "full" -> FullAlpha [] Which = "num" -> NumAlpha
-              [] Which = "num2" -> Num2Alpha [] Which = "str" -> StrAlpha
-Prefixes == CASE Which = "full" -> {<<>>} [] Which \in {"num", "num2"} -> NumPrefixes
-              [] Which = "str" -> StrPrefixes
+Alphabet == CASE Which = "full" -> FullAlpha [] Which = "fullx" -> FullXAlpha [] Which = "core" -> CoreAlpha
+              [] Which = "num" -> NumAlpha [] Which = "num2" -> Num2Alpha [] Which = "str" -> StrAlpha
+Prefixes == CASE Which \in {"full", "fullx", "core"} -> {<<>>} [] Which = "num" -> NumPrefixes
+              [] Which = "num2" -> Num2Prefixes [] Which = "str" -> StrPrefixes
 
 \* RoundNatRatio against the relation of NumTower on a grid of decimal literals around the
 \* rounding, overflow and underflow boundaries (evaluated once, on the state whose text is "0.")
@@ -53,14 +60,20 @@ GridInt == {<<49>>, <<57, 48, 48, 55, 49, 57, 57, 50, 53, 52, 55, 52, 48, 57, 57
             <<52, 57, 52, 48, 54, 53, 54, 52, 53, 56, 52, 49, 50, 52, 54, 53, 52, 52>>,
             <<49, 50, 51, 52, 53, 54, 55, 56, 57, 48, 49, 50, 51, 52, 53, 54, 55, 56, 57>>}
 GridFrac == {<<>>, <<53>>}
-\* (NumTower's relation reduces fractions with 300-digit terms for the extreme exponents: minutes
-\*  per literal in TLC, so those are left to the thorough tier)
-GridExp == IF MaxLen <= 4 THEN {<<48>>, <<49>>, <<50, 50>>, <<50, 51>>, <<52, 48>>}
-           ELSE {<<48>>, <<50, 51>>, <<51, 48, 56>>, <<51, 50, 52>>}
+\* (NumTower's relation reduces fractions with 300-digit terms for the extreme exponents: up to a
+\*  minute per literal in TLC, so only a few of those, and only in the thorough tier)
+GridExp == {<<48>>, <<49>>, <<50, 50>>, <<50, 51>>, <<52, 48>>}
+ExtraGrid == IF MaxLen <= 4 THEN {}
+             ELSE {<<(<<49>>), (<<>>), FALSE, (<<51, 48, 56>>)>>, <<(<<49, 55, 57, 55, 54, 57, 51, 49, 51, 52, 56, 54, 50, 51, 49, 53, 56>>), (<<>>), FALSE, (<<50, 57, 50>>)>>,
+                   <<(<<52, 57, 52, 48, 54, 53, 54, 52, 53, 56, 52, 49, 50, 52, 54, 53, 52, 52>>), (<<>>), TRUE, (<<51, 52, 49>>)>>,
+                   <<(<<50>>), (<<52, 55>>), TRUE, (<<51, 50, 52>>)>>}
+
 \* (computed inside the action that reaches "0.", where TLC caches LET values; the invariant reads the flag)
 FloatGridOk ==
-    \A is \in GridInt, fs \in GridFrac, es \in GridExp, ng \in BOOLEAN :
-       NT!CorrectlyRounded(FloatOf(is, fs, ng, es), FloatExact(is, fs, ng, es))
+    /\ \A is \in GridInt, fs \in GridFrac, es \in GridExp, ng \in BOOLEAN :
+          NT!CorrectlyRounded(FloatOf(is, fs, ng, es), FloatExact(is, fs, ng, es))
+    /\ \A g \in ExtraGrid :
+          NT!CorrectlyRounded(FloatOf(g[1], g[2], g[3], g[4]), FloatExact(g[1], g[2], g[3], g[4]))
 
 VARIABLES vtext, vst, vfin, vpos, vleft, vchk
 vars == <<vtext, vst, vfin, vpos, vleft, vchk>>
